@@ -4,7 +4,8 @@
     here except the glue of Model/FwdAdmission.v ([cfg_run], [htlc_satisfies_config],
     [unknown_chan_sanity]) is GENERATED from the Rust source by tools/rs2v on each run. *)
 Require Import LdkV.Prim.U64 LdkV.Prim.Rs2vLib LdkV.Gen.Consts LdkV.Gen.CltvChecks LdkV.Gen.CfgChecks
-  LdkV.Gen.FwdChecks LdkV.Model.FwdAdmission LdkV.Proofs.C02Admission.
+  LdkV.Gen.FwdChecks LdkV.Model.FwdAdmission LdkV.Proofs.C02Admission
+  LdkV.Model.Fwd LdkV.Proofs.C02Fwd.
 Open Scope Z_scope.
 
 (** The per-config check accepts exactly when the offered amount plus the advertised fee on it fits
@@ -130,3 +131,65 @@ Example C02_amt_to_forward_examples :
   amt_to_forward_msat (2 ^ 64 - 1) (mkPaymentRelay 0 0 0) = Some (2 ^ 64 - 1) /\
   check_blinded_forward 1000 500 (mkPaymentRelay 40 1000 10) (mkPaymentConstraints 600 1) false = ROk (990, 460).
 Proof. vm_compute. repeat split; reflexivity. Qed.
+
+(** Part 2: ordering, for EVERY list of labels of the abstract forwarding model [Model/Fwd.v]
+    (deliveries on the downstream link, completion of each monitor update in any order, on-chain
+    events, manager writes at any point, crashes at any point with every in-flight write
+    independently landed or not). *)
+
+(** The update of the downstream monitor that makes the fulfilled HTLC unrecoverable from it is handed
+    to the persister only after the upstream preimage update was reported complete; so on the disk
+    found after ANY crash, "downstream forgot" implies "upstream knows the preimage". *)
+Theorem C02_preimage_before_forget : forall ls,
+  let s := run init ls in
+  (forget_at_persister (m s) = true -> preimage_complete (m s) = true) /\
+  (forall lu lf, landedF (m s) lf = true -> landedU (m s) lu = true).
+Proof. exact preimage_before_forget. Qed.
+
+(** In every reachable state, also right after a restart: a fulfil learned downstream (message or
+    chain) has been claimed upstream, and if C has irrevocably been paid the upstream claim is in
+    flight or durable. *)
+Theorem C02_claim_whenever_known : forall ls,
+  let s := run init ls in
+  (fulfilish (down (m s)) = true -> is_claimish (up (m s)) = true) /\
+  (c_paid (g s) = true -> is_claimish (up (m s)) = true).
+Proof. exact claim_whenever_known. Qed.
+
+Theorem C02_claim_progress : forall ls,
+  let s := run init ls in
+  up (m s) = UClaimInFlight -> up (m (step s LCompleteU)) = UClaimed.
+Proof. exact claim_progress. Qed.
+
+Theorem C02_fail_only_when_safe : forall ls,
+  let s := run init ls in
+  up (m s) = UFailed -> c_failed (g s) = true \/ timeout_buried (g s) = true.
+Proof. exact fail_only_when_safe. Qed.
+
+Theorem C02_no_loss : forall ls (in_amt out_amt fee : nat),
+  (out_amt + fee <= in_amt)%nat ->
+  let s := run init ls in
+  (c_paid (g s) = true -> c_failed (g s) = false /\ timeout_buried (g s) = false /\ up (m s) <> UFailed) /\
+  (up (m s) = UFailed -> c_paid (g s) = false) /\
+  exists v, net s in_amt out_amt = Some v /\ (c_paid (g s) = true -> (fee <= v)%nat).
+Proof. exact no_loss. Qed.
+
+(** Non-vacuity: the blocker is exercised, a crash inside the window is survived, both fail paths
+    and the on-chain claim path are reachable. *)
+Example C02_model_window :
+  let s := run init [LForward; LFulfil false; LCommitFulfil true; LRaaFulfil true] in
+  dForget (m s) = FHeld /\ c_paid (g s) = true /\ up (m s) = UClaimInFlight /\
+  dForget (m (step s LCompleteU)) = FInFlight /\ up (m (step s LCompleteU)) = UClaimed.
+Proof. vm_compute. repeat split. Qed.
+
+Example C02_model_crash_in_window :
+  let s := run init [LForward; LPersistMgr; LFulfil false; LCommitFulfil true; LRaaFulfil true; LCrash false false false] in
+  c_paid (g s) = true /\ up (m s) = UClaimInFlight /\ uPre (m s) = InFlight /\ dForget (m s) = FNot /\
+  down (m s) = DOnChain.
+Proof. vm_compute. repeat split. Qed.
+
+Example C02_model_fail_paths :
+  up (m (run init [LForward; LFailMsg; LCommitFail; LRaaFail])) = UFailed /\
+  up (m (run init [LForward; LCloseD; LChainTimeout])) = UFailed /\
+  up (m (run init [LForward; LCloseD; LChainPreimage false; LCrash false false false])) = UClaimInFlight /\
+  up (m (run init [LForward; LFailMsg; LCommitFail])) = UCommitted.
+Proof. vm_compute. repeat split. Qed.
